@@ -34,6 +34,7 @@ const (
 	EqConst                   // result == named constant / != others: see Guard.Consts
 	LenNonZero                // len(result) != 0 / > 0
 	ErrIs                     // errors.Is/As(result, one of Accept) is true
+	NeConst                   // result != Const
 	ErrNotIs                  // errors.Is/As(result, one of Accept) is false (combine with NonNil for 'definitely failed')
 )
 
@@ -613,6 +614,10 @@ func (gf *GuardFlow) eval(v ssa.Value, r resRef, depth int) tri {
 				case EqConst:
 					if c, ok := intConst(b); ok && c == comp.Const {
 						t = triF // failing => a != Const => (a == Const) is false
+					}
+				case NeConst:
+					if c, ok := intConst(b); ok && c == comp.Const {
+						t = triT // failing => a == Const
 					}
 				}
 			} else if lenOf(a, gf, r) || lenOf(b, gf, r) {
@@ -1236,4 +1241,10 @@ func LEFacts(name string, isA, isB func(fn *ssa.Function, v ssa.Value) bool, str
 		return false
 	}}
 	return []Guard{t, f}, Derived{Name: name, Alts: [][]string{{t.Name}, {f.Name}}}
+}
+
+// Never is a guard no call establishes: requiring it at a site reports the site
+// (used for "this construct has a shape the rule does not accept").
+func Never(name string) Guard {
+	return Guard{Name: name, Match: func(Site) bool { return false }, Comps: []Comp{{Result: -1, Kind: IsTrue}}}
 }
